@@ -811,6 +811,13 @@ func (s *scenario) unclean(p *pair, d *sdid, heads, refd []*sver, prevRefs []has
 		if !heads[0].vmIDs[kid] {
 			return "kid-unresolvable: the kid is not a verification method of the latest version"
 		}
+		self := len(heads[0].ctrl) == 0
+		for _, c := range heads[0].ctrl {
+			self = self || c == d.id
+		}
+		if !self {
+			return "controller-chain: the kid is of the DID itself, which is controlled by another DID only"
+		}
 		return ""
 	}
 	od := s.dids[p.kidOwner.String()]
@@ -922,7 +929,7 @@ func (s *scenario) snap() map[string]string {
 		put(ids+"|resolver/latest", doc, md, err)
 		doc, md, err = st.Resolve(*id, &resolver.ResolveMetadata{ResolveTime: &future})
 		put(ids+"|store/time=future", doc, md, err)
-		for i := range s.sigts {
+		for i := max(0, len(s.sigts)-6); i < len(s.sigts); i++ { // the signing times of the latest transactions (legacy resolution goes by time)
 			doc, md, err = st.Resolve(*id, &resolver.ResolveMetadata{ResolveTime: &s.sigts[i]})
 			put(fmt.Sprintf("%s|store/time=%d", ids, s.sigts[i].Unix()), doc, md, err)
 		}
@@ -966,12 +973,13 @@ func (s *scenario) snap() map[string]string {
 			} else {
 				out["kid "+kid+"|dag/tx="+s.refs[i].String()[:10]] = pubThumb(pk)
 			}
-			pk, err = txKeyRes.ResolvePublicKey(kid, s.refs[i:i+1])
-			if err != nil {
-				out["kid "+kid+"|vdr/tx="+s.refs[i].String()[:10]] = "ERR " + err.Error()
-			} else {
-				out["kid "+kid+"|vdr/tx="+s.refs[i].String()[:10]] = pubThumb(pk)
-			}
+		}
+		// the ambassador's own key resolver (controllers must be active), over all transactions at once
+		pk, err := txKeyRes.ResolvePublicKey(kid, s.refs)
+		if err != nil {
+			out["kid "+kid+"|vdr/tx=any"] = "ERR " + err.Error()
+		} else {
+			out["kid "+kid+"|vdr/tx=any"] = pubThumb(pk)
 		}
 	}
 	var conflicted []string
